@@ -15,10 +15,10 @@ RULE = ("cases = generated plotfiles (odd/even field counts incl. 1, with/withou
         "fresh subprocesses; one evaluation = one tool run whose parsed output is compared with "
         "the model. distinct = hash(model, tool, options); non-trivial = odd field count, no "
         "species, or colliding unknown names")
-ASSUMPTIONS = ["field names hold no blanks (so the printed tables can be tokenised)",
+ASSUMPTIONS = ["menu tables are parsed only when no field name holds a blank (they cannot be tokenised otherwise); minuterie and marinate are judged for every name",
                "generator trusted; min/max tables hold no NaN"]
 REQUIRED_OBS = {"menu_views_judged": 60, "menu_runs": 60, "minmax_tables": 20, "odd_counts": 4, "no_species": 3,
-                "colliding_names": 3, "minuterie": 8, "marinate": 5, "subprocess_runs": 1}
+                "colliding_names": 3, "names_with_blanks": 2, "minuterie": 8, "marinate": 5, "subprocess_runs": 1}
 TIMEOUT = {"quick": 300, "thorough": 1500}
 
 KNOWN = ["density", "temp", "x_velocity", "y_velocity", "rhoh", "divu", "mag_vort", "HeatRelease",
@@ -45,6 +45,10 @@ def cases(tier, seed):
         if with_species and k >= 2 and not any(x.startswith("Y(") for x in names):
             names[-1] = rng.choice(SPECIES)
         rng.shuffle(names)
+        if i % 8 == 5:      # names holding blanks or UTF-8 text (valid: one name per header line)
+            names = gen.odd_names(random.Random(seed * 43 + i), k, blanks=True, nonascii=True)
+            if not any(" " in x for x in names):
+                names[0] = "heat release"
         bf = rng.choice([2, 4])
         g = dict(seed=rng.randrange(10 ** 9), ndims=nd, nlevels=1 + i % 3, bf=bf, names=names,
                  base_blocks=(1, 2) if bf == 4 else (2, 3), payload=rng.choice(["random", "special", "random"]),
@@ -124,6 +128,9 @@ def run_case(case, work, rec):
         rec.count("colliding_names")
     sub = case.get("subprocess", False)
     r = refparse.parse(path, with_data=False)
+    blanks = any(" " in n for n in names)     # the printed tables cannot be tokenised: menu is only run, not parsed
+    if blanks:
+        rec.count("names_with_blanks")
 
     # ---- minuterie
     out, err = run_tool("amr_kitchen.minuterie", ["minuterie", path], work, sub)
@@ -151,6 +158,9 @@ def run_case(case, work, rec):
         descr = f"menu {' '.join(opts)} on fields {names}"
         if err:
             rec.violation(f"menu raised {err.split(':')[0]}: {descr}", key=key, witness={"options": opts, "exc": err, "names": names})
+            continue
+        if blanks:
+            rec.count("menu_runs_not_parsed")
             continue
         probs = []
         if od == "default":
